@@ -5,7 +5,7 @@
           | Y <k> ret|rec|esc <who> <status> <id> <any> {<value>}*nn
    Output: SPECFAIL/MISMATCH <line> and an INFO line with the index of the first event at which the specification fails. *)
 let () =
-  let cases = ref 0 and reqs = ref 0 and specfail = ref 0 and mismatch = ref 0 and events = ref 0 and resdiff = ref 0 and stricter = ref 0 and idlayout = ref 0 in
+  let cases = ref 0 and reqs = ref 0 and specfail = ref 0 and mismatch = ref 0 and events = ref 0 and resdiff = ref 0 and stricter = ref 0 and idlayout = ref 0 and inhandler = ref 0 in
   iter_lines Sys.argv.(1) (fun line ->
     match split_ws line with
     | "E" :: rest ->
@@ -45,7 +45,7 @@ let () =
           | t -> failwith ("unknown event " ^ t)) in
         incr cases; events := !events + nev;
         (match check_history prefix sequential names evs with
-         | ((VOk, _), ((d, st), idl)) -> (if d then incr resdiff); (if st then incr stricter); (if idl then incr idlayout)
+         | ((VOk, _), (((d, st), idl), off)) -> (if d then incr resdiff); (if st then incr stricter); (if idl then incr idlayout); (if off then incr inhandler)
          | ((VSpecFail, i), _) ->
              incr specfail; Printf.printf "SPECFAIL %s\n" line;
              Printf.printf "INFO specification fails at event index=%d (0-based; = number of events: the ticket bound over the whole history)\n" (int_of_nat i)
@@ -54,5 +54,5 @@ let () =
     | _ -> ());
   (* residue_differs: histories in which dispatch followed the clean specification (a rejected Handle left nothing behind)
      where HEAD's leftover trie nodes would have shown: accepted, reported as drift *)
-  Printf.printf "STATS cases=%d specfail=%d mismatch=%d drift=%d requests=%d events=%d residue_differs=%d rejects_more=%d id_layout_differs=%d\n"
-    !cases !specfail !mismatch (!resdiff + !stricter + !idlayout) !reqs !events !resdiff !stricter !idlayout
+  Printf.printf "STATS cases=%d specfail=%d mismatch=%d drift=%d requests=%d events=%d residue_differs=%d rejects_more=%d id_layout_differs=%d judged_without_model_after_in_handler_registration=%d\n"
+    !cases !specfail !mismatch (!resdiff + !stricter + !idlayout) !reqs !events !resdiff !stricter !idlayout !inhandler
